@@ -62,9 +62,28 @@ def build_coq(targets=None):
         lock.close()
 
 
-def static_audit():
+def closure_files(roots):
+    """Transitive closure of `From SV(P) Require Import/Export …` starting from the given .v files."""
+    seen, todo = set(), list(roots)
+    while todo:
+        rel = todo.pop()
+        if rel in seen or not os.path.exists(os.path.join(COQ, rel)):
+            continue
+        seen.add(rel)
+        txt = open(os.path.join(COQ, rel)).read()
+        for m in re.finditer(r"From\s+SVP?\s+Require\s+(?:Import|Export)?\s*([^.]*)\.", txt):
+            for name in m.group(1).split():
+                for sub in ("theories", "props"):
+                    cand = os.path.join(sub, name + ".v")
+                    if os.path.exists(os.path.join(COQ, cand)):
+                        todo.append(cand)
+    return sorted(seen)
+
+
+def static_audit(files=None):
+    """Forbidden vernacular in the given files (default: every .v of the development)."""
     bad = []
-    for rel in coq_files():
+    for rel in (files if files is not None else coq_files()):
         with open(os.path.join(COQ, rel)) as fh:
             for i, line in enumerate(fh, 1):
                 if FORBIDDEN.search(line):
@@ -240,7 +259,11 @@ def check(prop, mod, tier, seed, replay, scratch, t0, lines):
     obligations.append(("coq-build", ok))
     if not ok:
         broken.append("coq build (make): " + blog[-1500:])
-    bad = static_audit()
+    # the property's verdict depends on its own dependency closure; the rest of the development is
+    # audited too and reported in the evidence (bin/audit checks the whole development)
+    closure = closure_files([f"props/{prop}.v", f"theories/{corr}.v"])
+    bad = static_audit(closure)
+    bad_elsewhere = [b for b in static_audit() if b not in bad]
     obligations.append(("static-audit", not bad))
     if bad:
         broken.append("static audit: " + "; ".join(bad[:5]))
@@ -345,6 +368,8 @@ def check(prop, mod, tier, seed, replay, scratch, t0, lines):
         else:
             payload = {"property": prop, "seed": seed, "tier": tier,
                        "broken_obligations": broken,
+            "audited_files": closure,
+            "audit_findings_in_other_files": bad_elsewhere[:10],
                        "mismatching_cases": [{"input": cases[i].desc, "implementation_observation": cases[i].obs,
                                               "coq_case": cases[i].coq} for i in mism[:5]],
                        "note": "model and implementation disagree (or a proof obligation broke) but the oracle "
@@ -389,6 +414,8 @@ def check(prop, mod, tier, seed, replay, scratch, t0, lines):
             "mismatches": len(mism),
             "known_findings_hit": {str(t): len(v) for t, v in known_hits.items()},
             "broken_obligations": broken,
+            "audited_files": closure,
+            "audit_findings_in_other_files": bad_elsewhere[:10],
             "exhaustive": bool(getattr(mod, "EXHAUSTIVE", {}).get(tier, False)),
         },
         "assumptions": list(getattr(mod, "ASSUMPTIONS", [])),
